@@ -3,6 +3,8 @@ parameters agree, file references are resolved against the file's directory, and
 run at all (names resolve, stdlib calls bind).  Does not decide equality of content."""
 import ast
 
+from .. import pynorm
+
 from .. import pyfe, res
 from ..core import AnalysisError
 
@@ -151,7 +153,7 @@ def ctor_params(py, clsq):
 def rule_schema(ctx, py):
     R = "C12.SCHEMA"
     for rq, wq, cq in PAIRS:
-        rf, wf = py.fn(rq), py.fn(wq)
+        rf, wf = pynorm.unrolled(py.fn(rq)), pynorm.unrolled(py.fn(wq))    # `for key in (<literal keys>)` == one statement per key
         rows, consumed, wiring, ctor = reader_info(rf)
         ctx.need(rows is not None, R, "%s: no process_input_dict_keys call with a literal synonym table" % rq)
         accepted = {k for r in rows for k in r}
